@@ -6,6 +6,7 @@
 package main
 
 import (
+	"sync/atomic"
 	"fmt"
 	"go/types"
 	"reflect"
@@ -213,17 +214,19 @@ func (e *Exec) callRegion(s *State, fn Val, args []Val, x *ssa.Call) []*State {
 	depth := len(s.Frames)
 	nPC, nAs := len(s.PC), len(s.Asserts)
 	basePC := append([]string{}, s.PC...)
+	mark := int(atomic.LoadInt64(&e.objSeq))
 	e.pushCall(s, fn, args, x, false)
 	reached, escaped := e.exploreRegion([]*State{s},
 		func(t *State) bool { return len(t.Frames) == depth && !top(t).Panicking },
 		func(t *State) bool { return len(t.Frames) < depth || (len(t.Frames) == depth && top(t).Panicking) })
-	merged := e.mergeStates(basePC, nPC, nAs, reached)
+	merged := e.mergeStates(basePC, nPC, nAs, reached, mark)
 	return append(append([]*State{}, merged...), escaped...) // never nil: an empty list ends the path
 }
 
 // ifRegion: both arms of a symbolic `if` are explored up to the immediate post-dominator and merged there.
 func (e *Exec) ifRegion(arms []*State, fn *ssa.Function, J *ssa.BasicBlock, depth int, basePC []string, nAs int) []*State {
 	np := cfgOf(fn).nphi[J]
+	mark := int(atomic.LoadInt64(&e.objSeq))
 	reached, escaped := e.exploreRegion(arms,
 		func(t *State) bool {
 			if len(t.Frames) != depth {
@@ -233,14 +236,15 @@ func (e *Exec) ifRegion(arms []*State, fn *ssa.Function, J *ssa.BasicBlock, dept
 			return !f.Panicking && f.Fn == fn && f.Blk == J && f.Idx == np
 		},
 		func(t *State) bool { return len(t.Frames) < depth || (len(t.Frames) == depth && top(t).Panicking) })
-	merged := e.mergeStates(basePC, len(basePC), nAs, reached)
+	merged := e.mergeStates(basePC, len(basePC), nAs, reached, mark)
 	return append(append([]*State{}, merged...), escaped...)
 }
 
-func (e *Exec) mergeStates(basePC []string, nPC, nAs int, sts []*State) []*State {
+func (e *Exec) mergeStates(basePC []string, nPC, nAs int, sts []*State, mark int) []*State {
 	if len(sts) <= 1 {
 		return sts
 	}
+	e.mergeMark = mark // objects with a larger id were allocated inside the region
 	var out []*State
 	for _, st := range sts {
 		done := false
@@ -634,7 +638,9 @@ func (e *Exec) iteValM(c string, a, b Val, A, B, M *State) Val {
 			return x
 		}
 		// pointers to two different freshly built records of the same shape: merge the pointees into a new object
-		if ok && x.Glob == nil && y.Glob == nil && x.ID != 0 && y.ID != 0 && len(x.Path) == 0 && len(y.Path) == 0 {
+		// (only objects allocated inside the region: an older object may be aliased from outside, and a copy would
+		// cut that alias - writes through the merged pointer would no longer be seen through the other name)
+		if ok && x.Glob == nil && y.Glob == nil && x.ID > e.mergeMark && y.ID > e.mergeMark && len(x.Path) == 0 && len(y.Path) == 0 {
 			va, vb := e.heapGet(A, x.ID), e.heapGet(B, y.ID)
 			if va != nil && vb != nil && reflect.TypeOf(va) == reflect.TypeOf(vb) {
 				nv := e.iteValM(c, va, vb, A, B, M)
